@@ -34,6 +34,31 @@ pub fn explain_why_not(relation: &str, target: &Tuple, ctx: &ProofContext<'_>) -
     let mut builder = ProofTreeBuilder::new();
     let mut clause_children = Vec::new();
 
+    // A tuple the evaluation did derive has no blocker to report.
+    if let Some(derived) = ctx.derived_data {
+        let concrete: Vec<_> = target_values
+            .iter()
+            .cloned()
+            .map(crate::provenance::unification::BoundTerm::Concrete)
+            .collect();
+        if !find_matching_tuples(relation, &concrete, derived).is_empty() {
+            let id = builder.insert_unique(ProofNode {
+                kind: NodeKind::Fact,
+                conclusion,
+                source: Some(FactSource::Derived),
+                rule_id: None,
+                bindings: None,
+                aggregate: None,
+                negation: None,
+                vector_search: None,
+                truncated: None,
+                why_not: None,
+                children: vec![],
+            });
+            return builder.finish(vec![id]);
+        }
+    }
+
     if !ctx.derived_relations.contains(relation) {
         // Base-only relation - no rules produce it
         let id = builder.insert_unique(ProofNode {
@@ -209,7 +234,13 @@ pub fn explain_why_not(relation: &str, target: &Tuple, ctx: &ProofContext<'_>) -
                     }
                     BodyPredicate::Negated(ref atom) => {
                         let bound = substitute_atom(atom, &current_bindings);
-                        let matches = find_matching_tuples(&atom.relation, &bound, ctx.base_data);
+                        let mut matches =
+                            find_matching_tuples(&atom.relation, &bound, ctx.base_data);
+                        if matches.is_empty() {
+                            if let Some(derived) = ctx.derived_data {
+                                matches = find_matching_tuples(&atom.relation, &bound, derived);
+                            }
+                        }
 
                         if !matches.is_empty() {
                             // Negation FAILED (tuple exists that shouldn't)
@@ -423,6 +454,12 @@ pub fn format_why_not_text(graph: &ProofTree) -> String {
         .map(|v| format!("{v}"))
         .collect::<Vec<_>>()
         .join(", ");
+    if root.kind == NodeKind::Fact {
+        return format!(
+            "{}({vals}) IS derived; use .why for its proof.\n",
+            root.conclusion.pred
+        );
+    }
     let mut output = format!("{}({vals}) was NOT derived:\n", root.conclusion.pred);
 
     // Check for "no rules" case: root has children but they're all WhyNot
